@@ -541,6 +541,7 @@ static int c07_main(int argc,char **argv){
       int s=(n>=2)?atoi(tok[1])%C7_SLOTS:0; c7_handle *H=&c7h[s]; OggVorbis_File *vf=&H->vf;
       if(!H->open){ printf("%s notopen\n",op); free(line); continue; }
       if(!strcmp(op,"fault")&&n>=5){ H->ms.fault_at=H->ms.ncalls+atol(tok[2]); H->ms.fault_kind=atoi(tok[3]); H->ms.fault_persist=atoi(tok[4]); H->ms.faults_fired=0; H->ffq_mark=0; printf("fault armed\n"); }
+      else if(!strcmp(op,"vdstate")){ printf("vdstate ready=%d ret=%d cur=%d cW=%ld lW=%ld W=%ld gp=%lld link=%d\n",vf->ready_state,vf->ready_state>=INITSET?vf->vd.pcm_returned:-99,vf->ready_state>=INITSET?vf->vd.pcm_current:-99,(long)vf->vd.centerW,(long)vf->vd.lW,(long)vf->vd.W,(long long)vf->vd.granulepos,vf->current_link); }
       else if(!strcmp(op,"nofault")){ printf("nofault fired=%d\n",H->ms.faults_fired); H->ms.fault_kind=0; }
       else if(!strcmp(op,"ffq")){ printf("ffq fired=%d kind=%d\n",H->ms.faults_fired-H->ffq_mark,H->ms.fault_kind); H->ffq_mark=H->ms.faults_fired; }
       else if(!strcmp(op,"tell")) printf("tell %lld\n",(long long)ov_pcm_tell(vf));
